@@ -90,8 +90,10 @@ def generate(seed: int, tier: str = "quick", index=None) -> dict:
     cfg["drive"] = r_sch.choice(("iter", "read"))
     if roll < 0.38:
         tr = {"kind": "file"}
-    elif roll < 0.45:
+    elif roll < 0.42:
         tr = {"kind": "capfile", "cap": r_sch.choice((1, 2, 3, 7, 16, 20, 64))}
+    elif roll < 0.45:
+        tr = {"kind": "pipe"}
     elif roll < 0.75:
         tr = common.draw_transport(r_sch, wire_len, spans, kinds=("socket",), ends=("close", "timeout", "reset", "ehostunreach", "ebadf", "enotconn"))
         cfg["bufsize"] = r_sch.choice(sched.BUFSIZES)
